@@ -178,6 +178,9 @@ def build(init, hist):
             sid, table_kind = 'S2-loaded', led['burst_method']
             if diff_tables(bm.df_features, tab):
                 return bm, led, sid, ('load', 'load did not store the table')
+            msg = check_attrs(bm)
+            if msg:
+                return bm, led, sid, ('attribute', msg + ' (after load)')
         elif kind == 'edges':
             if bm.df_features is None or table_kind != 'cycles':
                 continue
@@ -196,11 +199,22 @@ def build(init, hist):
                 return bm, led, sid, ('raise', 'recompute_edges raised %s: %s' % (type(e).__name__, str(e)[:150]))
             if exp_err is not None:
                 return bm, led, sid, ('edges', 'recompute_edges(%r) succeeded although the functional API rejects the lowered thresholds' % r)
+            msg = check_attrs(bm)
+            if msg:
+                return bm, led, sid, ('attribute', msg + ' (after recompute_edges)')
             dd = diff_tables(bm.df_features, exp)
             if dd:
                 return bm, led, sid, ('edges', 'recompute_edges(%r) differs from the functional edge recomputation with the current '
                                       'thresholds lowered by r: %s' % (r, dd))
     return bm, led, sid, None
+
+
+def check_attrs(bm):
+    for c in bm.df_features.columns:
+        v = getattr(bm, c)
+        if not np.array_equal(np.asarray(v), bm.df_features[c].values, equal_nan=bm.df_features[c].dtype != bool):
+            return 'attribute %s does not return the column of the current table' % c
+    return None
 
 
 def canon(bm, led, sid):
